@@ -20,7 +20,12 @@ func fuzzSeeds(f *testing.F) {
 	f.Add([]byte(minimalCDX15))
 	for _, s := range []string{`{"spdxVersion":"SPDX-2.3","packages":[null]}`, `{"bomFormat":"CycloneDX","specVersion":"1.5","components":[{"licenses":[{}]}]}`,
 		`{"bomFormat":"CycloneDX","specVersion":"1.4","metadata":{"component":null},"components":null}`, "SPDXVersion: SPDX-2.3\n", "[", `{"spdxVersion":"SPDX-2.2","files":[null],"relationships":[null]}`,
-		`{"spdxVersion":"SPDX-2.1","relationships":[null]}`, `{"bomFormat":"CycloneDX","specVersion":"1.3","components":[{"components":[{"bom-ref":"a"},{"bom-ref":"a"}]}]}`} {
+		`{"spdxVersion":"SPDX-2.1","relationships":[null]}`, `{"bomFormat":"CycloneDX","specVersion":"1.3","components":[{"components":[{"bom-ref":"a"},{"bom-ref":"a"}]}]}`,
+		// runs of nulls, wrong types and empty members at the places parsers index into
+		`{"spdxVersion":"SPDX-2.3","files":[null,null],"packages":[{"SPDXID":"SPDXRef-a","externalRefs":[null,null,{}]}],"relationships":[null,null]}`,
+		`{"bomFormat":"CycloneDX","specVersion":"1.5","components":[null,null,{"hashes":[null,null],"externalReferences":[null,{"hashes":[null]}],"licenses":[null,null],"properties":[null],"components":[null,null]}],"dependencies":[null,null,{"ref":"a","dependsOn":[null]}]}`,
+		`{"bomFormat":"CycloneDX","specVersion":"1.5","metadata":{"tools":[null,null],"authors":[null],"lifecycles":[null,null],"component":{"cpe":"cpe:/","purl":"","components":[null]}}}`,
+		`{"spdxVersion":"SPDX-2.3","creationInfo":{"creators":[null,"",":"]},"documentDescribes":[null,null],"packages":[{"checksums":[null,null],"supplier":"","originator":":","primaryPackagePurpose":""}],"files":[{"checksums":[null],"fileTypes":[null,null]}]}`} {
 		f.Add([]byte(s))
 	}
 	for _, p := range realFiles(64 << 10) {
@@ -33,10 +38,12 @@ func fuzzSeeds(f *testing.F) {
 func FuzzC04Parse(f *testing.F) {
 	fuzzSeeds(f)
 	f.Fuzz(func(t *testing.T, data []byte) {
-		if len(data) > 1<<16 { // (the native fuzzer kills any execution above 10 s: inputs stay small enough for a quadratic pass)
+		// (the native fuzzer kills any execution above 10 s and the library's node grafting is quadratic - about 3 s for
+		// 4 000 empty components on an idle machine: inputs stay below 8 KB)
+		if len(data) > 1<<13 {
 			return
 		}
-		if v, err := hx.ParseJV(data); err == nil && maxLicenceEntries(v) > kf05MaxLicences {
+		if v, err := hx.ParseJV(data); (err == nil && maxLicenceEntries(v) > kf05MaxLicences) || kf05Suspect(data) {
 			return // known finding KF-05
 		}
 		if o := totalityCheck(data, nil, c04Budget); o != nil {
